@@ -30,17 +30,6 @@ Proof. unfold emit, upd. rewrite rev_append_rev, app_nil_r. reflexivity. Qed.
 Lemma upd_nil st : upd st [] [] = st.
 Proof. unfold upd. destruct st. cbn. rewrite app_nil_r, N.add_0_r. reflexivity. Qed.
 
-Lemma fix_last_cons2 q x t off : fix_last (q :: x :: t) off = q :: fix_last (x :: t) off.
-Proof. reflexivity. Qed.
-Lemma fix_last_snoc ps p off : fix_last (ps ++ [p]) off =
-  ps ++ [{| p_label := p_label p; p_code_off := off; p_start := p_start p; p_fn := p_fn p |}].
-Proof.
-  induction ps as [|q ps IH]; [reflexivity|].
-  change ((q :: ps) ++ [p]) with (q :: (ps ++ [p])).
-  destruct (ps ++ [p]) as [|x t] eqn:E; [destruct ps; discriminate|].
-  rewrite fix_last_cons2, IH. reflexivity.
-Qed.
-
 Definition lbl_idx (L : list N) (t : N) : N := match index_of t L 0 with Some i => i | None => 0 end.
 
 Lemma mem_index t : forall L i, mem_N t L = true -> exists j, index_of t L i = Some j.
@@ -49,6 +38,13 @@ Proof.
   destruct (t =? y); [eexists; reflexivity|]. apply IH. exact H.
 Qed.
 
+Lemma index_of_mem0 t : forall L i j, index_of t L i = Some j -> mem_N t L = true.
+Proof.
+  induction L as [|y L IH]; intros i j H; [discriminate|]. cbn [index_of mem_N] in *.
+  destruct (t =? y); [reflexivity|]. eapply IH, H.
+Qed.
+Lemma mem_false_index t L : mem_N t L = false -> index_of t L 0 = None.
+Proof. intros H. destruct (index_of t L 0) eqn:E; [|reflexivity]. apply index_of_mem0 in E. congruence. Qed.
 Lemma index_of_bound t : forall L i j, index_of t L i = Some j -> j < i + lenN L.
 Proof.
   induction L as [|y L IH]; intros i j H; [discriminate|]. cbn [index_of] in H. rewrite lenN_cons.
@@ -120,11 +116,14 @@ Proof. unfold label_name. intros H. inversion H. apply print_dec_inj. assumption
 Lemma label_name_len i : i < 4294967296 -> lenN (label_name i) < 128.
 Proof. intros H. unfold label_name. rewrite lenN_cons. pose proof (print_dec_len i H). lia. Qed.
 
-Definition zenc1 (k : okind) (v : N) : list byte := if okind_eqb k KI32 then [0; 0; 0; 0] else le_bytes (ksize k) v.
-Fixpoint zenc (ks : list okind) (vs : list N) : list byte :=
-  match ks, vs with k :: ks', v :: vs' => zenc1 k v ++ zenc ks' vs' | _, _ => [] end.
+(* a jump operand is assembled through a label exactly when its target is one of the function's labels *)
+Definition labelled (L : list N) (pos : N) (k : okind) (v : N) : bool := okind_eqb k KI32 && mem_N (u32 (pos + v)) L.
+Definition zenc1 (L : list N) (pos : N) (k : okind) (v : N) : list byte :=
+  if labelled L pos k v then [0; 0; 0; 0] else le_bytes (ksize k) v.
+Fixpoint zenc (L : list N) (pos : N) (ks : list okind) (vs : list N) : list byte :=
+  match ks, vs with k :: ks', v :: vs' => zenc1 L pos k v ++ zenc L pos ks' vs' | _, _ => [] end.
 Definition patch1 (L : list N) (cur start off : N) (k : okind) (v : N) : list patch :=
-  if okind_eqb k KI32
+  if labelled L start k v
   then [{| p_label := label_name (lbl_idx L (u32 (start + v))); p_code_off := off; p_start := start; p_fn := cur |}]
   else [].
 Fixpoint mk_patches (L : list N) (cur start off : N) (ks : list okind) (vs : list N) : list patch :=
@@ -132,8 +131,11 @@ Fixpoint mk_patches (L : list N) (cur start off : N) (ks : list okind) (vs : lis
   | k :: ks', v :: vs' => patch1 L cur start off k v ++ mk_patches L cur start (off + N.of_nat (ksize k)) ks' vs'
   | _, _ => [] end.
 
-Lemma zenc1_len k v : lenN (zenc1 k v) = N.of_nat (ksize k).
-Proof. unfold zenc1, lenN. destruct k; cbn [okind_eqb]; rewrite ?le_bytes_length; reflexivity. Qed.
+Lemma zenc1_len L pos k v : lenN (zenc1 L pos k v) = N.of_nat (ksize k).
+Proof.
+  unfold zenc1, labelled, lenN. destruct k; cbn [okind_eqb andb]; rewrite ?le_bytes_length; try reflexivity.
+  destruct (mem_N (u32 (pos + v)) L); [reflexivity|rewrite le_bytes_length; reflexivity].
+Qed.
 
 Lemma parse_unsigned_dec hi v rest : stops rest -> (Z.of_N v <= hi)%Z -> v < 9223372036854775808 ->
   parse_unsigned hi (32 :: print_dec v ++ rest) = Some (v, rest).
@@ -151,8 +153,8 @@ Proof. destruct k; reflexivity. Qed.
 
 Lemma count_i32_cons k ks : count_i32 (k :: ks) = (if okind_eqb k KI32 then 1 else 0) + count_i32 ks.
 Proof. unfold count_i32. cbn [filter]. destruct (okind_eqb k KI32); [rewrite lenN_cons|]; lia. Qed.
-Lemma patch1_len L cur start off k v : lenN (patch1 L cur start off k v) = if okind_eqb k KI32 then 1 else 0.
-Proof. unfold patch1. destruct (okind_eqb k KI32); reflexivity. Qed.
+Lemma patch1_len L cur start off k v : lenN (patch1 L cur start off k v) <= if okind_eqb k KI32 then 1 else 0.
+Proof. unfold patch1, labelled. destruct (okind_eqb k KI32); cbn [andb]; [destruct (mem_N (u32 (start + v)) L)|]; cbn; lia. Qed.
 
 Lemma starts_cons_ne c x r : x <> c -> starts c (x :: r) = None.
 Proof. intros H. unfold starts. destruct (N.eqb_spec x c); [contradiction|reflexivity]. Qed.
@@ -222,7 +224,7 @@ Qed.
 Definition arg_text (L : list N) (pos : N) (k : okind) (v : N) : text :=
   match k with
   | KU8 | KU16 | KU32 => print_dec v
-  | KI32 => label_name (lbl_idx L (u32 (pos + v)))
+  | KI32 => if mem_N (u32 (pos + v)) L then label_name (lbl_idx L (u32 (pos + v))) else print_sdec (to_signed 32 v)
   | KI64 => print_sdec (to_signed 64 v)
   | KF64 => print_f64 v
   end.
@@ -231,9 +233,9 @@ Fixpoint args_text (L : list N) (pos : N) (ks : list okind) (vs : list N) : text
   | k :: ks', v :: vs' => 32 :: arg_text L pos k v ++ args_text L pos ks' vs'
   | _, _ => [] end.
 
-(* an operand the theorem covers: in range for its kind; a jump whose target got a label; a float the oracle handles *)
+(* an operand the theorem covers: in range for its kind; a float the oracle handles *)
 Definition arg_ok (L : list N) (pos : N) (k : okind) (v : N) : Prop :=
-  v < 256 ^ N.of_nat (ksize k) /\ (k = KI32 -> mem_N (u32 (pos + v)) L = true) /\ (k = KF64 -> good v = true).
+  v < 256 ^ N.of_nat (ksize k) /\ (k = KF64 -> good v = true).
 Fixpoint args_ok (L : list N) (pos : N) (ks : list okind) (vs : list N) : Prop :=
   match ks, vs with
   | [], [] => True
@@ -244,19 +246,22 @@ Lemma arg_text_plain L pos k v : arg_ok L pos k v ->
   Forall (fun c => plain_char c = true) (arg_text L pos k v) /\ arg_text L pos k v <> [] /\
   (forall c r, arg_text L pos k v = c :: r -> is_ws c = false /\ c <> 58).
 Proof.
-  intros [Hv [Hl Hf]].
+  intros [Hv Hf].
   assert (Dec : forall n, Forall (fun c => plain_char c = true) (print_dec n) /\ print_dec n <> [] /\
                           (forall c r, print_dec n = c :: r -> is_ws c = false /\ c <> 58)).
   { intros n. split; [apply print_dec_plain|]. split; [apply print_dec_nonempty|].
     intros c r E. pose proof (print_dec_all_digits n) as F. rewrite E in F. inversion F; subst.
     pose proof (dec_char_bounds c H1). split; [apply plain_facts, dec_char_plain; assumption|lia]. }
-  destruct k; cbn [arg_text]; try apply Dec.
-  - split; [apply all_ident_plain, label_name_ident|]. split; [discriminate|].
-    intros c r E. unfold label_name in E. inversion E; subst. split; [reflexivity|discriminate].
-  - split; [apply print_sdec_plain|]. split; [apply print_sdec_nonempty|].
-    intros c r E. unfold print_sdec in E. destruct (to_signed 64 v <? 0)%Z.
+  assert (Sdec : forall z, Forall (fun c => plain_char c = true) (print_sdec z) /\ print_sdec z <> [] /\
+                           (forall c r, print_sdec z = c :: r -> is_ws c = false /\ c <> 58)).
+  { intros z. split; [apply print_sdec_plain|]. split; [apply print_sdec_nonempty|].
+    intros c r E. unfold print_sdec in E. destruct (z <? 0)%Z.
     + inversion E; subst. split; [reflexivity|discriminate].
-    + apply (proj2 (proj2 (Dec _)) c r E).
+    + apply (proj2 (proj2 (Dec _)) c r E). }
+  destruct k; cbn [arg_text]; try apply Dec; try apply Sdec.
+  - destruct (mem_N (u32 (pos + v)) L); [|apply Sdec].
+    split; [apply all_ident_plain, label_name_ident|]. split; [discriminate|].
+    intros c r E. unfold label_name in E. inversion E; subst. split; [reflexivity|discriminate].
   - destruct (Horacle v (Hf eq_refl)) as [P [Ne [H58 _]]]. split; [exact P|]. split; [exact Ne|].
     intros c r E. rewrite E in *. inversion P; subst. split; [apply plain_facts; assumption|exact H58].
 Qed.
@@ -284,10 +289,12 @@ Qed.
 Lemma fmt_operand_plain m L pos o idx k v : arg_ok L pos k v -> (k = KU32 -> comment_op o = false) ->
   fmt_operand m L pos o idx k v = 32 :: arg_text L pos k v.
 Proof.
-  intros [_ [Hl _]] Hc. destruct k; cbn [fmt_operand arg_text]; try reflexivity.
+  intros _ Hc. destruct k; cbn [fmt_operand arg_text]; try reflexivity.
   - specialize (Hc eq_refl). unfold comment_op in Hc. apply orb_false_iff in Hc. destruct Hc as [Hc H3].
     apply orb_false_iff in Hc. destruct Hc as [H1 H2]. rewrite H1, H2, H3. reflexivity.
-  - destruct (mem_index _ L 0 (Hl eq_refl)) as [j Ej]. unfold lbl_idx. rewrite Ej. reflexivity.
+  - destruct (mem_N (u32 (pos + v)) L) eqn:Hm.
+    + destruct (mem_index _ L 0 Hm) as [j Ej]. unfold lbl_idx. rewrite Ej. reflexivity.
+    + rewrite (mem_false_index _ _ Hm). reflexivity.
 Qed.
 Lemma fmt_operands_plain m L pos o ks : comment_op o = false -> forall vs idx, args_ok L pos ks vs ->
   fmt_operands m L pos o idx ks vs = args_text L pos ks vs.
@@ -315,14 +322,34 @@ Lemma asm_operand_ok st L k v rest start :
   arg_ok L start k v -> stops rest -> lenN L <= max_disasm_labels ->
   (k = KI32 -> lenN (a_patches st) < max_patches) ->
   asm_operand st k (32 :: arg_text L start k v ++ rest) start =
-  inl (upd st (zenc1 k v) (patch1 L (a_cur st) start (a_size st) k v), rest).
+  inl (upd st (zenc1 L start k v) (patch1 L (a_cur st) start (a_size st) k v), rest).
 Proof.
-  intros [Hv [Hl Hf]] Hs HL Hp. rewrite pow256 in Hv.
-  destruct k; cbn [Asm.asm_operand arg_text zenc1 patch1 okind_eqb].
+  intros [Hv Hf] Hs HL Hp. rewrite pow256 in Hv.
+  destruct k; unfold zenc1, patch1, labelled; cbn [Asm.asm_operand arg_text okind_eqb andb].
   - rewrite parse_unsigned_dec by (try assumption; lia). rewrite emit_upd. reflexivity.
   - rewrite parse_unsigned_dec by (try assumption; lia). rewrite emit_upd. reflexivity.
   - rewrite parse_unsigned_dec by (try assumption; lia). rewrite emit_upd. reflexivity.
-  - (* a label *)
+  - destruct (mem_N (u32 (start + v)) L) eqn:Hm.
+    2:{ (* a raw offset *)
+      rewrite skip_ws_sp.
+      pose proof (print_sdec_nonempty (to_signed 32 v)) as Ne. pose proof (print_sdec_plain (to_signed 32 v)) as F.
+      assert (Hz : (-2147483648 <= to_signed 32 v < 2147483648)%Z).
+      { unfold to_signed. change (2 ^ (32 - 1)) with 2147483648. change (2 ^ Z.of_N 32)%Z with 4294967296%Z.
+        destruct (N.ltb_spec v 2147483648); lia. }
+      assert (Hal : forall c r, print_sdec (to_signed 32 v) = c :: r -> is_alpha_ c = false).
+      { intros c r E. unfold print_sdec in E. destruct (to_signed 32 v <? 0)%Z; [inversion E; reflexivity|].
+        pose proof (print_dec_all_digits (Z.to_N (to_signed 32 v))) as D. rewrite E in D. inversion D; subst.
+        pose proof (dec_char_bounds c H1) as B. unfold is_alpha_.
+        replace (65 <=? c) with false by (symmetry; apply N.leb_gt; lia).
+        replace (97 <=? c) with false by (symmetry; apply N.leb_gt; lia).
+        replace (c =? 95) with false by (symmetry; apply N.eqb_neq; lia). reflexivity. }
+      destruct (print_sdec (to_signed 32 v)) as [|c r] eqn:E; [congruence|]. inversion F; subst.
+      cbn [app]. rewrite skip_ws_cons by (apply plain_facts; assumption). rewrite (Hal c r eq_refl).
+      unfold parse_range, parse_int64. rewrite skip_ws_cons by (apply plain_facts; assumption).
+      change (c :: r ++ rest) with ((c :: r) ++ rest). rewrite <- E, strtoll_print_sdec; [|exact Hs|lia].
+      destruct (Z.ltb_spec (to_signed 32 v) (-2147483648)); [lia|]. destruct (Z.ltb_spec 2147483647 (to_signed 32 v)); [lia|].
+      cbn [orb]. rewrite of_to_signed by lia. rewrite emit_upd. reflexivity. }
+    (* a label *)
     rewrite skip_ws_sp. set (nm := label_name (lbl_idx L (u32 (start + v)))).
     assert (Hnm : nm = 76 :: print_dec (lbl_idx L (u32 (start + v)))) by reflexivity.
     rewrite Hnm. cbn [app]. rewrite skip_ws_cons by reflexivity. change (is_alpha_ 76) with true. cbn iota.
@@ -331,8 +358,7 @@ Proof.
     { pose proof (lbl_idx_bound L (u32 (start + v))). unfold max_disasm_labels in HL. lia. }
     rewrite parse_identifier_app; [|apply label_name_ident|discriminate|apply label_name_len, Hi|apply stops_stops_ident, Hs].
     specialize (Hp eq_refl). unfold add_patch. destruct (N.leb_spec max_patches (lenN (a_patches st))); [lia|].
-    unfold set_patches. cbn [a_patches a_mod a_labels a_in_fn a_cur a_rcode a_size].
-    rewrite fix_last_snoc. cbn [p_label p_start p_fn]. rewrite emit_upd. unfold upd.
+    unfold set_patches. rewrite emit_upd. unfold upd.
     cbn [a_patches a_mod a_labels a_in_fn a_cur a_rcode a_size]. rewrite app_nil_r. reflexivity.
   - unfold parse_int64. rewrite skip_ws_sp.
     pose proof (print_sdec_nonempty (to_signed 64 v)) as Ne. pose proof (print_sdec_plain (to_signed 64 v)) as F.
@@ -352,7 +378,7 @@ Lemma asm_operands_ok L start ks : forall vs st,
   args_ok L start ks vs -> lenN L <= max_disasm_labels ->
   lenN (a_patches st) + count_i32 ks <= max_patches ->
   asm_operands st ks (args_text L start ks vs) start =
-  inl (upd st (zenc ks vs) (mk_patches L (a_cur st) start (a_size st) ks vs)).
+  inl (upd st (zenc L start ks vs) (mk_patches L (a_cur st) start (a_size st) ks vs)).
 Proof.
   induction ks as [|k ks IH]; intros [|v vs] st H HL Hp; cbn [args_ok] in H; try contradiction.
   - cbn [Asm.asm_operands zenc mk_patches]. rewrite upd_nil. reflexivity.
@@ -363,7 +389,7 @@ Proof.
     2:{ intros ->. cbn [okind_eqb] in Hp. lia. }
     rewrite IH; [|exact Hr|exact HL|].
     + rewrite upd_upd. unfold upd at 2 3. cbn [a_cur a_size]. rewrite zenc1_len. reflexivity.
-    + unfold upd. cbn [a_patches]. rewrite lenN_app, patch1_len. lia.
+    + unfold upd. cbn [a_patches]. rewrite lenN_app. pose proof (patch1_len L (a_cur st) start (a_size st) k v). lia.
 Qed.
 
 (* ---------------------------------------------------------------- an instruction line *)
@@ -438,7 +464,7 @@ Lemma process_instr st L i ks :
   a_in_fn st = true -> T (op i) = Some ks -> args_ok L (a_size st) ks (args i) -> lenN L <= max_disasm_labels ->
   lenN (a_patches st) + count_i32 ks <= max_patches ->
   process_line st (instr_line L (a_size st) i) =
-  inl (upd st (op i :: zenc ks (args i)) (mk_patches L (a_cur st) (a_size st) (a_size st + 1) ks (args i))).
+  inl (upd st (op i :: zenc L (a_size st) ks (args i)) (mk_patches L (a_cur st) (a_size st) (a_size st + 1) ks (args i))).
 Proof.
   intros Hin HT Hok HL Hp. unfold instr_line. rewrite (kinds_of_T _ _ HT).
   destruct (name_facts _ _ HT) as [s [c [r [El [En [Es [Ha [Hi Hl]]]]]]]]. rewrite En.
